@@ -343,7 +343,14 @@ def main():
                                        detail=f"rc={rc} answers={len(outs)}/{len(reqs)} {err}"))
                 else:
                     for (req, ans), mo in zip(r["cases"], outs):
-                        if ans != mo:
+                        if "[RACY]" in mo:
+                            # the model says the rest of this schedule depends on the Go scheduler: compare the
+                            # observations before that point only
+                            k = mo.split("] [").index("[RACY]") if mo.split("] [")[0] == "[RACY]" else len(mo.split(" [RACY]")[0].split("] ["))
+                            ans = "] [".join(ans.split("] [")[:k])
+                            mo = "] [".join(mo.split("] [")[:k])
+                            totals["racy"] = totals.get("racy", 0) + 1
+                        if ans.rstrip("]") != mo.rstrip("]"):
                             mismatches.append(dict(suite=suite, request=req, impl=ans, model=mo))
     totals["mismatches"] = len(mismatches)
     if mismatches and cfg.get("mismatch_violation_pattern"):
@@ -425,6 +432,7 @@ def main():
             traces_validated_against_impl=totals["evaluations"] - totals["mismatches"],
             oracle_evaluations=totals["oracle_evals"],
             correspondence_mismatches=totals["mismatches"],
+            schedules_cut_at_scheduler_dependent_point=totals.get("racy", 0),
             suites=suite_stats,
             distribution=dist,
             exhaustive=False,
